@@ -1,4 +1,5 @@
 """C02 — HTML output is well-formed and document strings never become markup."""
+import common
 import copy
 import random
 
@@ -57,7 +58,7 @@ def substitute(parts, opts, sigma):
 
 def run(out, tier, seed, model_ok):
     rng = random.Random(seed * 7919 + 2)
-    n = 1200 if tier == "quick" else 15000
+    n = common.deepen(1200 if tier == "quick" else 15000)
     cs = A.gen_cases(seed, n, PROFILE, options={"imageConv": None}, sm=SM, tag="c02-")
     for c in cs:
         c["options"].pop("imageConv", None)
@@ -94,7 +95,7 @@ def run(out, tier, seed, model_ok):
                           {"kind": "api", "parts": c["parts"], "options": c["options"], "check": "substitution"}, expected=repr(s1)[:800], actual=repr(s2)[:800])
     # the writer alone, on forests with hostile strings (plain names)
     forests = []
-    for _ in range(1500 if tier == "quick" else 20000):
+    for _ in range(common.deepen(1500 if tier == "quick" else 20000)):
         f = H.random_forest(rng, max_nodes=12)
         plain = all(all(ch.isalnum() for ch in nm) and nm for n in _all(f) if n["t"] == "el" for nm in n["names"])
         if plain:
